@@ -77,6 +77,12 @@ func c04LongText(res *Result) {
 	}
 }
 
+type c04Held struct {
+	c    Case
+	want string
+	blob []byte
+}
+
 // c04OtherRoutes: the same source reaches the engine through a file (FileSystemLoader), through an ArrayLoader and
 // through its compiled form (several versions under one name and one recorded time, each loaded into a fresh
 // engine): every literal byte -- CR, CR LF, NUL, a byte order mark, invalid UTF-8 -- comes out as through RegisterString.
@@ -91,6 +97,22 @@ func c04OtherRoutes(cases string, res *Result) {
 		"{# first #}v1 lit\r\n{{ a }}", "{# secnd #}v2 LIT\n\r{{ a }}", "{# third #}v3 \x00it\r\r{{ a }}",
 	}
 	ctx := func() map[string]interface{} { return map[string]interface{}{"a": "A"} }
+	var held []c04Held
+	defer func() {
+		for _, h := range held {
+			res.Evaluations++
+			e := twig.New()
+			got, err := "", e.LoadFromCompiledData(h.blob)
+			if err == nil {
+				got, err = e.Render("t.twig", ctx())
+			}
+			if err != nil || got != h.want {
+				res.add(Finding{Kind: "oracle", Where: "other-routes/serialised forms held together", Case: h.c, Expected: hx(h.want), Observed: hx(got) + fmt.Sprintf(" (err=%v)", err),
+					Detail: "every version was serialised with SaveCompiled, the results kept, then each loaded into an engine of its own: the literal text is another version's (or the form no longer loads)"})
+				return
+			}
+		}
+	}()
 	for i, src := range srcs {
 		c := Case{"stream": "other-routes", "src": hx(src)}
 		res.Hist["stream:other-routes"]++
@@ -122,6 +144,12 @@ func c04OtherRoutes(cases string, res *Result) {
 		ae.RegisterLoader(twig.NewArrayLoader(map[string]string{name: src}))
 		got, err = ae.Render(name, ctx())
 		check("ArrayLoader", got, err)
+		// the serialised form through Template.SaveCompiled, kept until every version has been serialised
+		if t, lerr := ref.Load("t.twig"); lerr == nil {
+			if blob, serr := t.SaveCompiled(); serr == nil {
+				held = append(held, c04Held{c: c, want: want, blob: blob})
+			}
+		}
 		// the compiled form: one name and one recorded time for every version
 		if ct, cerr := ref.CompileTemplate("t.twig"); cerr == nil {
 			ct.LastModified = 1700000000
